@@ -90,6 +90,8 @@ def is_set_expr(e, setvars):
         return True
     if isinstance(e, ast.Name) and e.id in setvars:
         return True
+    if isinstance(e, ast.Attribute) and e.attr in ("__optional_keys__", "__required_keys__"):
+        return True          # frozensets of a TypedDict
     if isinstance(e, ast.Call) and isinstance(e.func, ast.Name) and e.func.id == "cast" and len(e.args) == 2:
         return is_set_expr(e.args[1], setvars)
     if isinstance(e, ast.BinOp) and isinstance(e.op, (ast.BitOr, ast.BitAnd, ast.Sub, ast.BitXor)):
